@@ -62,6 +62,95 @@ Definition has_owner_guard (m : msg_type) : bool :=
 
 Definition c12_owner_check : bool := forallb has_owner_guard position_msgs.
 
+(* ---- WHICH record is owner-compared, and how was it fetched?  (Gen/GuardTable.v owner_cmps)
+   An owner comparison protects the position a message names only if the compared record IS that
+   position's record (or, for a borrow - which has no owner field - the lend position it sits on):
+   the chain of lookups from the compared record back to the message must be keyed, link by link,
+   by an id of the kind the lookup expects, the first link must fetch a record of the kind whose
+   owner field is compared, and the chain must start at a position-id field of the message.
+   `GetLend(ctx, borrowPos.ID)` - a lend looked up by a BORROW id - fails the check. *)
+Fixpoint assoc {A : Type} (k : string) (l : list (string * A)) : option A :=
+  match l with
+  | [] => None
+  | (k', v) :: r => if String.eqb k k' then Some v else assoc k r
+  end.
+
+(* reviewed: owner field -> kind of position the record is *)
+Definition owner_fields : list (string * string) :=
+  [("Vault.Owner", "vault"); ("Locker.Depositor", "locker"); ("LendAsset.Owner", "lend"); ("Order.Orderer", "order")].
+(* reviewed: lookup -> (kind of id it is keyed by, type of the record it returns) *)
+Definition lookup_info : list (string * (string * string)) :=
+  [("GetVault", ("vault", "Vault")); ("GetLocker", ("locker", "Locker")); ("GetLend", ("lend", "LendAsset"));
+   ("GetBorrow", ("borrow", "BorrowAsset")); ("GetOrder", ("order", "Order"))].
+(* reviewed: the kind of id each key expression carries (message fields; id / link fields of the records) *)
+Definition key_kind : list (string * string) :=
+  [("msg.UserVaultId", "vault"); ("msg.LockerId", "locker"); ("msg.LendId", "lend"); ("msg.BorrowId", "borrow"); ("msg.OrderId", "order");
+   ("BorrowAsset.LendingID", "lend"); ("BorrowAsset.ID", "borrow"); ("LendAsset.ID", "lend");
+   ("Vault.Id", "vault"); ("Locker.LockerId", "locker"); ("Order.Id", "order")].
+
+Definition key_has_kind (k key : string) : bool :=
+  match assoc key key_kind with Some k' => String.eqb k' k | None => false end.
+Definition key_no_other_kind (k key : string) : bool :=
+  match assoc key key_kind with Some k' => String.eqb k' k | None => true end.
+
+(* [chain_ok ids c]: every link is keyed by exactly one id of its own kind and by no id of another
+   kind; a "<RecordType>.<Field>" key is a field of the record the NEXT link fetches; the last link
+   is keyed by a field of the message that is one of [ids] *)
+Fixpoint chain_ok (ids : list string) (c : list (string * list string)) : bool :=
+  match c with
+  | [] => false
+  | (lk, keys) :: rest =>
+    match assoc lk lookup_info with
+    | None => false
+    | Some (k, _) =>
+      forallb (key_no_other_kind k) keys &&
+      match filter (key_has_kind k) keys with
+      | [key] =>
+        if String.prefix "msg." key then
+          match rest with [] => existsb (fun f => String.eqb key ("msg." ++ f)) ids | _ => false end
+        else
+          match rest with
+          | (lk2, _) :: _ =>
+            match assoc lk2 lookup_info with
+            | Some (_, rt) => String.prefix (rt ++ ".") key && chain_ok ids rest
+            | None => false
+            end
+          | [] => false
+          end
+      | _ => false
+      end
+    end
+  end.
+
+Definition is_owner_field (c : owner_cmp) : bool :=
+  match assoc (oc_field c) owner_fields with Some _ => true | None => false end.
+
+(* the compared field is the owner field of the kind of record the first link fetches, and the chain is sound *)
+Definition owner_cmp_ok (ids : list string) (c : owner_cmp) : bool :=
+  match assoc (oc_field c) owner_fields, oc_chain c with
+  | Some k, (lk, _) :: _ =>
+    match assoc lk lookup_info with
+    | Some (k', rt) => String.eqb k k' && String.prefix (rt ++ ".") (oc_field c) && chain_ok ids (oc_chain c)
+    | None => false
+    end
+  | _, _ => false
+  end.
+
+Definition cmps_of (handler_name : string) : list owner_cmp :=
+  filter (fun c => String.eqb (oc_handler c) handler_name && is_owner_field c) owner_cmps.
+
+(* a position message that names an id: it has at least one owner comparison, and EVERY owner
+   comparison on its walk (helper rows included) is made on a record reached from one of the
+   message's own position-id fields *)
+Definition msg_position_ids (m : msg_type) : list string :=
+  filter (fun f => mem f position_id_fields) (mt_ids m).
+Definition owner_cmps_ok (ids : list string) (cs : list owner_cmp) : bool :=
+  match cs with [] => false | _ => forallb (owner_cmp_ok ids) cs end.
+Definition owner_prov_ok (m : msg_type) : bool :=
+  mem (mt_qname m) signer_keyed_msgs || owner_cmps_ok (msg_position_ids m) (cmps_of (mt_handler m)).
+
+Definition c12_owner_prov_check : bool := forallb owner_prov_ok position_msgs.
+
 (* closed world: every registered message of a DeFi module has a handler row and a signer field *)
 Definition defi_modules : list string :=
   ["vault"; "locker"; "lend"; "liquidity"; "auction"; "auctionsV2"; "liquidation"; "liquidationsV2"; "esm";
@@ -234,7 +323,7 @@ Definition position_handler_names : list string := map mt_handler position_msgs.
    the directed search of bin/check concentrates the harness on these (runner entries C12-focus /
    C14-focus print them, bin/props.d/C1x.py hands them to the harness as VERIF_FOCUS) *)
 Definition c12_broken_rows : list string :=
-  map mt_handler (filter (fun m => negb (has_owner_guard m)) position_msgs).
+  map mt_handler (filter (fun m => negb (has_owner_guard m) || negb (owner_prov_ok m)) position_msgs).
 Definition c14_broken_rows : list string :=
   filter (fun n => negb (rejects_under_breaker n)) breaker_scope ++
   map h_name (filter (fun h => negb (esm_guarded h)) esm_mint_scope) ++
